@@ -6,6 +6,7 @@
 package c06
 
 import (
+	"bytes"
 	"crypto/ecdsa"
 	"crypto/x509/pkix"
 	"encoding/asn1"
@@ -152,7 +153,10 @@ type vctx struct {
 	uid     []byte // as passed to the library (nil = not given)
 	msg     []byte
 	e       []byte // the digest handed to digest-based entry points (nil if the uid is refused)
+	args    *argset
 }
+
+func (v *vctx) in(name string, b []byte) []byte { return v.args.in(name, b) }
 
 type bytesEP struct {
 	name string
@@ -170,28 +174,155 @@ func isDefaultUID(uid []byte) bool { return len(uid) == 0 || string(uid) == stri
 
 var bytesEPs = []bytesEP{
 	{"VerifyASN1", func(v *vctx) bool { return v.e != nil },
-		func(v *vctx, sig []byte) bool { return sm2.VerifyASN1(v.pub, cp(v.e), cp(sig)) }},
+		func(v *vctx, sig []byte) bool { return sm2.VerifyASN1(v.pub, v.in("hash", v.e), v.in("sig", sig)) }},
 	{"VerifyASN1WithSM2", func(v *vctx) bool { return v.msgMode },
-		func(v *vctx, sig []byte) bool { return sm2.VerifyASN1WithSM2(v.pub, cp(v.uid), cp(v.msg), cp(sig)) }},
+		func(v *vctx, sig []byte) bool {
+			return sm2.VerifyASN1WithSM2(v.pub, v.in("uid", v.uid), v.in("msg", v.msg), v.in("sig", sig))
+		}},
 	{"smx509.CheckSignature", func(v *vctx) bool { return v.msgMode && isDefaultUID(v.uid) },
 		func(v *vctx, sig []byte) bool {
 			c := &smx509.Certificate{PublicKey: v.pub}
-			return c.CheckSignature(smx509.SM2WithSM3, cp(v.msg), cp(sig)) == nil
+			return c.CheckSignature(smx509.SM2WithSM3, v.in("signed", v.msg), v.in("signature", sig)) == nil
 		}},
 	{"smx509.CheckSignatureWithDigest", func(v *vctx) bool { return v.e != nil && len(v.e) == 32 },
 		func(v *vctx, sig []byte) bool {
 			c := &smx509.Certificate{PublicKey: v.pub}
-			return c.CheckSignatureWithDigest(smx509.SM2WithSM3, cp(v.e), cp(sig)) == nil
+			return c.CheckSignatureWithDigest(smx509.SM2WithSM3, v.in("digest", v.e), v.in("signature", sig)) == nil
 		}},
 }
 
 var intsEPs = []intsEP{
 	{"Verify", func(v *vctx) bool { return v.e != nil },
-		func(v *vctx, r, s *big.Int) bool { return sm2.Verify(v.pub, cp(v.e), cpi(r), cpi(s)) }},
+		func(v *vctx, r, s *big.Int) bool { return sm2.Verify(v.pub, v.in("hash", v.e), cpi(r), cpi(s)) }},
 	{"VerifyWithSM2", func(v *vctx) bool { return v.msgMode },
 		func(v *vctx, r, s *big.Int) bool {
-			return sm2.VerifyWithSM2(v.pub, cp(v.uid), cp(v.msg), cpi(r), cpi(s))
+			return sm2.VerifyWithSM2(v.pub, v.in("uid", v.uid), v.in("msg", v.msg), cpi(r), cpi(s))
 		}},
+}
+
+// call runs the entry point and then settles the argument discipline: inputs
+// unmodified, spare capacity untouched, arguments scribbled if the case says so.
+func (ep bytesEP) call(v *vctx, sig []byte) (bool, error) {
+	got := ep.f(v, sig)
+	return got, v.args.done(ep.name)
+}
+
+func (ep intsEP) call(v *vctx, r, s *big.Int) (bool, error) {
+	got := ep.f(v, r, s)
+	return got, v.args.done(ep.name)
+}
+
+// ---------------------------------------------------------------- argument discipline
+
+// argset prepares every slice argument of a library call according to the
+// case's Args word and checks/scribbles them when the call has returned.
+//
+//	Args == 0      plain private copies (nil stays nil), nothing scribbled
+//	otherwise      the k-th slice argument since the start of the case uses
+//	               nibble k mod 15 of Args:
+//	                 bits 0-1  flavour of a zero-length argument: 0 nil,
+//	                           1 []byte{}, 2 or 3 buf[:0] of a non-empty buffer
+//	                 bit 2     non-empty argument gets spare capacity filled
+//	                           with the sentinel 0xA5 (buf[:0] always has it)
+//	               bit 63: after each call every argument buffer (content and
+//	               spare capacity) is overwritten with garbage, and so are the
+//	               slices / integers the library returned (after copying them)
+//
+// After each call: argument contents unchanged, sentinel intact (no entry
+// point here documents append semantics). Later results on the same key /
+// public key objects must still be right, which is what detects a retained
+// reference.
+type argset struct {
+	mode  uint64
+	idx   int
+	slots []*slot
+	rec   *h.Rec
+	seen  map[string]bool
+}
+
+type slot struct {
+	name string
+	full []byte
+	n    int
+	orig []byte
+}
+
+const (
+	argScribble  = uint64(1) << 63
+	argFlavoured = uint64(1) << 62 // no meaning of its own: makes a drawn Args word non-zero
+	sentinel     = 0xA5
+)
+
+func newArgs(mode uint64, rec *h.Rec) *argset {
+	return &argset{mode: mode, rec: rec, seen: map[string]bool{}}
+}
+
+func (a *argset) scribbling() bool { return a != nil && a.mode&argScribble != 0 }
+
+func (a *argset) label(l string) {
+	if a.rec != nil && !a.seen[l] {
+		a.seen[l] = true
+		a.rec.Label(l)
+	}
+}
+
+func (a *argset) in(name string, b []byte) []byte {
+	if a == nil || a.mode == 0 {
+		return cp(b)
+	}
+	sel := (a.mode >> (uint(a.idx%15) * 4)) & 0xf
+	a.idx++
+	n := len(b)
+	var full []byte
+	switch {
+	case n == 0 && sel&3 == 0:
+		a.label("arg:nil")
+		return nil
+	case n == 0 && sel&3 == 1:
+		a.label("arg:empty-non-nil")
+		return []byte{}
+	case n == 0:
+		a.label("arg:buf[:0]")
+		full = bytes.Repeat([]byte{sentinel}, 9)
+	case sel&4 != 0:
+		a.label("arg:spare-capacity")
+		full = append(cp(b), bytes.Repeat([]byte{sentinel}, 11)...)
+	default:
+		full = cp(b)
+		full = full[:n:n]
+	}
+	a.slots = append(a.slots, &slot{name: name, full: full, n: n, orig: cp(b)})
+	return full[:n]
+}
+
+func (a *argset) done(callee string) error {
+	if a == nil {
+		return nil
+	}
+	defer func() { a.slots = nil }()
+	for _, s := range a.slots {
+		if !bytes.Equal(s.full[:s.n], s.orig) {
+			return fmt.Errorf("%s modified its argument %s: %s -> %s", callee, s.name, h.Hex(s.orig), h.Hex(s.full[:s.n]))
+		}
+		for i := s.n; i < len(s.full); i++ {
+			if s.full[i] != sentinel {
+				return fmt.Errorf("%s wrote into the spare capacity of its argument %s (len %d) at offset +%d: %x", callee, s.name, s.n, i-s.n, s.full[s.n:])
+			}
+		}
+	}
+	if a.scribbling() {
+		a.label("arg:scribbled-after-call")
+		for _, s := range a.slots {
+			scribble(s.full)
+		}
+	}
+	return nil
+}
+
+func scribble(b []byte) {
+	for i := range b {
+		b[i] = byte(0xEE ^ i*37)
+	}
 }
 
 // ---------------------------------------------------------------- reference verdict
@@ -344,7 +475,7 @@ var certEpoch = time.Unix(1700000000, 0).UTC()
 // certSign lets smx509.CreateCertificate sign a self-signed certificate and
 // returns the signed bytes (TBSCertificate) and the signature found in the
 // result, taken apart with encoding/asn1 only.
-func certSign(rand io.Reader, priv *sm2.PrivateKey, seed uint64) (tbs, sig []byte, err error) {
+func certSign(rand io.Reader, priv *sm2.PrivateKey, seed uint64, scribbleResult bool) (tbs, sig []byte, err error) {
 	tmpl := &smx509.Certificate{
 		SerialNumber: new(big.Int).SetUint64(seed | 1),
 		Subject:      pkix.Name{CommonName: fmt.Sprintf("c06-%x", seed)},
@@ -370,7 +501,12 @@ func certSign(rand io.Reader, priv *sm2.PrivateKey, seed uint64) (tbs, sig []byt
 	if outer.Sig.BitLength%8 != 0 {
 		return nil, nil, fmt.Errorf("signature BIT STRING has %d bits", outer.Sig.BitLength)
 	}
-	return outer.TBS.FullBytes, outer.Sig.Bytes, nil
+	tbs, sig = outer.TBS.FullBytes, outer.Sig.Bytes
+	if scribbleResult {
+		tbs, sig = cp(tbs), cp(sig)
+		scribble(der)
+	}
+	return tbs, sig, nil
 }
 
 func hexInt(v *big.Int) string {
